@@ -55,6 +55,9 @@ def gen_sdl(rng):
         ret = rng.choice(["Item", "[Item!]!", "Shop", "Node", "Thing", "String", "Int!", "Boolean", "[Thing]"])
         return f"  {name}" + (f"({', '.join(args)})" if args else "") + f": {ret}", bool(args)
 
+    # root types need not be called Query / Mutation, and a Subscription root type is never offered for testing
+    custom_roots = rng.random() < 0.3
+    qroot, mroot = ("RootQuery", "RootMutation") if custom_roots else ("Query", "Mutation")
     queries, mutations = [], []
     q_lines = []
     for i in range(rng.randint(2, 5)):
@@ -62,16 +65,24 @@ def gen_sdl(rng):
         text, _ = field(name)
         q_lines.append(text)
         queries.append(name)
-    lines += ["type Query {"] + q_lines + ["}", ""]
-    if rng.random() < 0.7:
+    lines += [f"type {qroot} {{"] + q_lines + ["}", ""]
+    with_mutation = rng.random() < 0.7
+    if rng.random() < 0.35:
+        sroot = "Events" if custom_roots else "Subscription"
+        lines += [f"type {sroot} {{", "  itemChanged(id: ID!): Item", "  tick: Int!", "}", ""]
+        if custom_roots:
+            lines += ["schema {", f"  query: {qroot}"] + ([f"  mutation: {mroot}"] if with_mutation else []) + [f"  subscription: {sroot}", "}", ""]
+    elif custom_roots:
+        lines += ["schema {", f"  query: {qroot}"] + ([f"  mutation: {mroot}"] if with_mutation else []) + ["}", ""]
+    if with_mutation:
         m_lines = []
         for i in range(rng.randint(1, 3)):
             name = rng.choice(["createItem", "deleteItem", "rename", "tag"]) + str(i)
             text, _ = field(name)
             m_lines.append(text)
             mutations.append(name)
-        lines += ["type Mutation {"] + m_lines + ["}", ""]
-    return "\n".join(lines), queries, mutations
+        lines += [f"type {mroot} {{"] + m_lines + ["}", ""]
+    return "\n".join(lines), queries, mutations, qroot, mroot
 
 
 def run_shard(spec, emit):
@@ -99,7 +110,9 @@ def run_shard(spec, emit):
     for s_idx in range(n_schemas):
         if time.monotonic() > deadline:
             break
-        sdl, queries, mutations = gen_sdl(rng)
+        sdl, queries, mutations, qroot, mroot = gen_sdl(rng)
+        emit.distinct("root_type_names", qroot)
+        emit.distinct("has_subscription", "subscription" in sdl.lower())
         try:
             reference_schema = graphql.build_schema(sdl)
         except Exception as exc:
@@ -120,7 +133,7 @@ def run_shard(spec, emit):
             emit.viol("C20/schema-not-loadable", f"{type(exc).__name__}: {exc}"[:200], context)
             continue
         # ---- offered operations and counts under name filters
-        all_names = [f"Query.{q}" for q in queries] + [f"Mutation.{m}" for m in mutations]
+        all_names = [f"{qroot}.{q}" for q in queries] + [f"{mroot}.{m}" for m in mutations]
         for _ in range(6):
             kind = rng.choice(["none", "include", "exclude", "include_regex", "both"])
             filtered = schema
@@ -136,7 +149,7 @@ def run_shard(spec, emit):
                     continue
             regex = None
             if kind == "include_regex":
-                regex = rng.choice(["^Query\\.", "^Mutation\\.", "item", "1$"])
+                regex = rng.choice([f"^{qroot}\\.", f"^{mroot}\\.", "item", "1$"])
                 filtered = filtered.include(name_regex=regex)
             import re
 
@@ -152,7 +165,7 @@ def run_shard(spec, emit):
                 emit.viol("C20/selected-total-counts-differ", f"reported {stat.selected}/{stat.total}, reference {len(expected)}/{len(all_names)}", fcontext)
         # ---- generated documents
         generation_config = GenerationConfig(**cfg)
-        for root, names in (("Query", queries), ("Mutation", mutations)):
+        for root, names in ((qroot, queries), (mroot, mutations)):
             for field_name in names:
                 try:
                     operation = schema[root][field_name]
@@ -191,7 +204,7 @@ def run_shard(spec, emit):
                         emit.viol("C20/not-exactly-one-operation", f"{len(definitions)} operations", dcontext)
                         continue
                     definition = definitions[0]
-                    expected_kind = graphql.OperationType.QUERY if root == "Query" else graphql.OperationType.MUTATION
+                    expected_kind = graphql.OperationType.QUERY if root == qroot else graphql.OperationType.MUTATION
                     if definition.operation != expected_kind:
                         emit.viol("C20/wrong-operation-kind", f"{definition.operation} for {root}.{field_name}", dcontext)
                     top = [s.name.value for s in definition.selection_set.selections if isinstance(s, graphql.FieldNode)]
@@ -199,7 +212,7 @@ def run_shard(spec, emit):
                         emit.viol("C20/top-level-selection-is-not-the-operation-field", f"selected {top}, expected [{field_name}]", dcontext)
                     # values
                     has_args = False
-                    field_def = (reference_schema.query_type if root == "Query" else reference_schema.mutation_type).fields[field_name]
+                    field_def = (reference_schema.query_type if root == qroot else reference_schema.mutation_type).fields[field_name]
 
                     def walk(node, gql_type):
                         nonlocal has_args
